@@ -51,6 +51,42 @@ def ceilLogAux (k n : Nat) : Nat → Nat → Nat → Nat
 
 def ceilLog (k n : Nat) : Nat := ceilLogAux k n n 0 1
 
+/-! ### the depth loop of `_tree_reduce` (identical in `_reductions_generic.py` and `_array_expr/_reductions.py`)
+
+```
+depth = 1
+for i, n in enumerate(x.numblocks):
+    if i in split_every and split_every[i] != 1:
+        depth = int(builtins.max(depth, math.ceil(math.log(n, split_every[i]))))
+```
+`math.ceil(math.log(n, k))` is modelled by the exact `ceilLog k n` (the float value may overshoot by one at exact
+powers — measured by the harness; a larger depth is harmless: `axesOk_mono`). -/
+
+def depthStep (depth : Nat) (s : Option Nat) (n : Nat) : Nat :=
+  match s with
+  | some k => if k = 1 then depth else max depth (ceilLog k n)
+  | none => depth
+
+/-- the loop over the axes, `d` = the running value (initially 1) -/
+def depthLoop : List (Option Nat) → List Nat → Nat → Nat
+  | s :: ss, n :: ns, d => depthLoop ss ns (depthStep d s n)
+  | _, _, d => d
+
+def treeDepth (split : List (Option Nat)) (numblocks : List Nat) : Nat := depthLoop split numblocks 1
+
+/-- the same loop with the running maximum dropped (`depth = max(1, ceil(log(n, k)))`): the LAST reduced axis alone
+    decides the depth (an independently seeded defect of the expression engine) -/
+def depthStepLast (depth : Nat) (s : Option Nat) (n : Nat) : Nat :=
+  match s with
+  | some k => if k = 1 then depth else max 1 (ceilLog k n)
+  | none => depth
+
+def depthLoopLast : List (Option Nat) → List Nat → Nat → Nat
+  | s :: ss, n :: ns, d => depthLoopLast ss ns (depthStepLast d s n)
+  | _, _, d => d
+
+def treeDepthLast (split : List (Option Nat)) (numblocks : List Nat) : Nat := depthLoopLast split numblocks 1
+
 /-! ## n-d block plans (graph structure of `partial_reduce`) -/
 
 /-- `itertools.product(*ls)` -/
